@@ -265,9 +265,16 @@ def write_netcdf(d, spec, path, missing="fill", dtype="f4", time_dtype="f8", wit
         kw = {}
         if missing == "fill":
             kw["fill_value"] = netCDF4.default_fillvals[dtype]
+        elif missing == "fill-9999":
+            kw["fill_value"] = -9999.0          # a file-specific _FillValue that is an ordinary number
         var = nc.createVariable(name, dtype, dd, **kw)
-        if missing == "fill":
+        if missing in ("fill", "fill-9999"):
             var[:] = np.ma.masked_invalid(a)
+        elif missing == "missing_value":
+            var.missing_value = np.array(-99.0, dtype)   # masked through the missing_value attribute
+            a = a.copy()
+            a[np.isnan(a)] = -99.0
+            var[:] = a
         elif missing == "-999":
             a = a.copy()
             a[np.isnan(a)] = -999
